@@ -194,7 +194,7 @@ impl Prop for Hist {
     }
     fn cases(&self, tier: Tier) -> u64 {
         match tier {
-            Tier::Quick => tape_space() + 20_000,
+            Tier::Quick => tape_space() + 90_000,
             Tier::Thorough => tape_space() + 600_000,
         }
     }
